@@ -44,14 +44,16 @@ CHECKS = {
                      'backend: exhaustive; plain backend: <=1/2 deviations) gets the recovery oracle (all visible snapshots complete '
                      'and restorable, listings, new snapshot, clean exact); (b) the real Local.upload/upload_stream/delete killed in a '
                      'forked child at every interposed file-system step and torn write; (c) every backend call index failing for good '
-                     'with two exception kinds',
+                     'with two exception kinds'
+                     ' (c2) the same Repository object goes on after the failed command; file-system steps are taken at the os/io level (mc/fsteps), independent of how the adapter spells its file handling; Local.clean included',
                 note='kill loses user-space buffers but not what reached the kernel; fixed 8-byte chunks; 11 scenarios',
                 technique='exhaustive crash-point / fault-position enumeration over explored schedules'),
     'C10': dict(cat='exploration', ref='2/C10', engine='E3',
                 text='complete products: C++ next_cut rebuilt from the working tree vs scalar reference, guard-byte independence and an '
                      'AddressSanitizer pass over every (min,max)<=10/13 x keys x buffers over a 3-word alphabet; real adapter over every '
                      'segmentation with <=2/3 cuts (+empty pieces, one-byte pieces): lossless, non-empty, bounds, alignment, '
-                     'determinism across calls, independence from splitting',
+                     'determinism across calls, independence from splitting'
+                     ' Two chunker generators advanced alternately by one thread: every schedule with <= 4 switches.',
                 note='ctypes glue replaces pybind11 conversion; small parameters only', technique='exhaustive bounded enumeration of inputs and segmentations'),
     'C11': dict(cat='exploration', ref='2/C11', engine='E3',
                 text='every suffix over a 3-word alphabet x all pairs of aligned prefixes (coincidence after first common boundary), '
@@ -78,7 +80,8 @@ CHECKS = {
                 text='every cipher x key size x hash setting x {fresh, long-lived Repository} over an init/add-key/snapshot/delete/clean '
                      'history with real randomness: every payload ever written, every name, key file and stdout searched for 8-byte '
                      'windows of every secret (raw/hex/base64); independent reader checks names are keyed MACs, blobs are '
-                     'nonce+ciphertext+tag and no (key, nonce) pair repeats',
+                     'nonce+ciphertext+tag and no (key, nonce) pair repeats'
+                     ' Modes also: cache directory shared with an unencrypted repository; stale existence answers. A failing command does not end the history.',
                 note='bounded taint search, not a cryptographic proof', technique='exhaustive configuration enumeration with taint search'),
     'C14': dict(cat='exploration', ref='2/C14', engine='E3+E1',
                 text='replicat writes / independent reader decodes (trees x every cipher x hash, chunkers, KDFs, both backend kinds, all '
@@ -110,7 +113,8 @@ CHECKS = {
                 text='the real main() driven through argv / environment / TOML file / --profile for every option x every subset of its '
                      'sources x string and native TOML values x commands, for local, s3c, s3, b2 and a custom backend found through the '
                      'namespace package (int/bool/str/float options, coercion-sensitive values); effective value and type against a '
-                     'five-line precedence function; mutually exclusive pairs rejected',
+                     'five-line precedence function; mutually exclusive pairs rejected'
+                     ' The configuration file at its default location as well as through --config; files naming an unreadable password/key file. Effective values observed at the Repository/backend constructor interface.',
                 note='CLI/config modules re-imported per case; the command handler is replaced by a recorder that calls the real '
                      '_instantiate_backend', technique='exhaustive configuration enumeration against a reference precedence function'),
     'C20': dict(cat='model_checking', ref='2/C20', engine='E1',
@@ -124,7 +128,8 @@ CHECKS = {
                      'the wire (one object name/prefix per character class x all operations, streams of 0/1/3 chunks, 1-3 listing pages '
                      'with continuation tokens, 4 clocks incl. midnight and year crossing inside one client, http/https, host with port, '
                      '2 credential sets, a transient fault at every position of a streamed upload) is re-verified by an independent '
-                     'SigV4 implementation incl. payload hash and content length',
+                     'SigV4 implementation incl. payload hash and content length'
+                     ' One fault incl. same- and cross-origin 3xx redirects at every request of every operation.',
                 note='"+" in a received query tried as space and literally', technique='exhaustive input-class enumeration against an independent SigV4 verifier'),
     'C12': dict(cat='fault_enumeration', ref='2/C12', engine='E3',
                 text='real S3Compatible and B2 adapters on fake services and the real Local adapter with its file-system calls interposed: '
@@ -132,7 +137,8 @@ CHECKS = {
                      'chunks, 5xx/429/401/408 with and without retry-after, response dropped after k chunks; OSError at each step) x '
                      'c = 1..measured budget consecutive faults, forever, and pairs at two positions; within budget the call returns with '
                      'exactly the intended bytes stored / delivered and nothing temporary left, persistent faults end in an exception after '
-                     'a bounded number of requests',
+                     'a bounded number of requests'
+                     ' Local fault positions are os/io-level calls (mc/fsteps), an attempt ending when the retry policy sleeps.',
                 note='retry budget measured per role and fault kind; listing is only required to be bounded', technique='exhaustive fault-position enumeration'),
     'C13': dict(cat='model_checking', ref='2/C13', engine='E2',
                 text='real Local (6 spellings of the repository path), S3Compatible and B2 (fake services, listing pages of 2) against a dict '
